@@ -22,7 +22,7 @@ GroupsThorough == <<
    [name |-> "full-L3",     lvl |-> 2, nt |-> 1, L |-> 3, cs |-> All3],
    [name |-> "core-L4",     lvl |-> 1, nt |-> 1, L |-> 4, cs |-> All3],
    [name |-> "full-2tp-L2", lvl |-> 2, nt |-> 2, L |-> 2, cs |-> Timed],
-   [name |-> "core-2tp-L3", lvl |-> 1, nt |-> 2, L |-> 3, cs |-> Timed] >>
+   [name |-> "core-2tp-L3", lvl |-> 1, nt |-> 2, L |-> 3, cs |-> {"da"}] >>
 GroupsNone == << >>
 
 IsCore(o) == [o EXCEPT !.t = 1] \in Core1
